@@ -4,7 +4,7 @@
 From Coq Require Import Reals List.
 Import ListNotations.
 From PD Require Import Model.Num Model.Spectrum Gen.Gen_spectrum
-  Proofs.SpectrumLists Proofs.SpectrumSF Proofs.SpectrumSmooth Proofs.C16 Proofs.C17.
+  Proofs.SpectrumLists Proofs.SpectrumSF Proofs.SpectrumSmooth Proofs.SpectrumPeak Proofs.SpectrumDFT4 Proofs.C16 Proofs.C17.
 Local Open Scope R_scope.
 
 Theorem C17_ls_mean_covariant : forall (F : dft_oracle) shape h x s, 0 < s ->
@@ -54,6 +54,46 @@ Theorem C17_ls_peak_field_inv : forall mini dom F, dft_spec dom F -> forall shap
      ls_peak_model mini F shape h (fun n => x (shift_idx shape s n)) sigma = ls_peak_model mini F shape h x sigma).
 Proof. exact ls_peak_field_inv. Qed.
 Print Assumptions C17_ls_peak_field_inv.
+
+(* the peak search starts at the argmax over the unsmoothed (k, sf) pairs and smooths (0 :: k, 1 :: sf) *)
+Theorem C17_ls_peak_model_start : forall mini (F : dft_oracle) shape h x sigma,
+  ls_peak_model mini F shape h x sigma =
+  match argmax_pair (sf_pairs F shape h x) with
+  | None => None
+  | Some est => peak_loop mini (nw_smooth sigma (0 :: k_list shape h) (1 :: sf_list F shape x)) (fst est) ls_peak_windows
+  end.
+Proof. exact ls_peak_model_start. Qed.
+Print Assumptions C17_ls_peak_model_start.
+
+(* resolved plane wave, any spacing: the start estimate is the true wave number; a returned value lies in the
+   widest bracket around it (premises: DFT identities, cosine orthogonality, minimiser stays in its bracket).
+   "Within half a Fourier bin" beyond this is a per-sample check (see the comment in Proofs/C17.v). *)
+Theorem C17_plane_wave_peak_bin : forall mini dom F,
+  minimizer_in_bracket mini -> dft_spec dom F -> dft_cosine dom F ->
+  forall N q A phi c h sigma,
+  dom [N] -> (1 <= q)%nat -> (4 * q <= N)%nat -> A <> 0 -> 0 < h ->
+  (exists p, argmax_pair (sf_pairs F [N] [h] (cosine_field N q A phi c)) = Some p /\
+             fst p = 2 * PI * INR q / (INR N * h)) /\
+  (forall L, ls_peak_model mini F [N] [h] (cosine_field N q A phi c) sigma = Some L ->
+     exists xk, L = ls_peak xk /\
+                2 * PI * INR q / (INR N * h) / 5 <= xk <= 5 * (2 * PI * INR q / (INR N * h))).
+Proof. exact plane_wave_peak_bin. Qed.
+Print Assumptions C17_plane_wave_peak_bin.
+
+Theorem C17_plane_wave_start_covariant : forall dom F, dft_spec dom F -> dft_cosine dom F ->
+  forall N q A phi c h s,
+  dom [N] -> (1 <= q)%nat -> (4 * q <= N)%nat -> A <> 0 -> 0 < h -> 0 < s ->
+  exists p p', argmax_pair (sf_pairs F [N] [h] (cosine_field N q A phi c)) = Some p /\
+               argmax_pair (sf_pairs F [N] [s * h] (cosine_field N q A phi c)) = Some p' /\
+               fst p' = fst p / s.
+Proof. exact plane_wave_start_covariant. Qed.
+Print Assumptions C17_plane_wave_start_covariant.
+
+Theorem C17_plane_wave_premises_satisfiable :
+  minimizer_in_bracket mini_lo /\ dft_spec dom4 dft4 /\ dft_cosine dom4 dft4 /\ dom4 [4%nat] /\
+  (1 <= 1)%nat /\ (4 * 1 <= 4)%nat /\ 1 <> 0 /\ 0 < / 2.
+Proof. exact c17_plane_wave_nonvacuous. Qed.
+Print Assumptions C17_plane_wave_premises_satisfiable.
 
 Theorem C17_ls_is_inverse_wave_number :
   (forall x, x <> 0 -> ls_peak x * x = 2 * PI) /\
